@@ -12,6 +12,8 @@ import (
 	"flag"
 	"fmt"
 	"os"
+	"strconv"
+	"strings"
 	"time"
 
 	"verif/sim/core"
@@ -78,8 +80,15 @@ func main() {
 		fs.StringVar(&a.Journal, "journal", "", "")
 		mw := fs.Duration("maxwall", 2*time.Minute, "")
 		fs.IntVar(&a.HashCap, "hashcap", 1<<20, "")
+		skip := fs.String("skip", "", "")
 		fs.Parse(args)
 		a.MaxWall = *mw
+		a.Skip = map[int]bool{}
+		for _, x := range strings.Split(*skip, ",") {
+			if v, err := strconv.Atoi(x); err == nil {
+				a.Skip[v] = true
+			}
+		}
 		os.Exit(core.Worker(a))
 	case "exec-one":
 		fs := flag.NewFlagSet("exec-one", flag.ExitOnError)
